@@ -124,6 +124,7 @@ InitGhost ==
     slashed   |-> {},                               \* batches whose unbonding stake was slashed
     donated   |-> FALSE,                            \* unsolicited coins reached the hub since the last release
     delivered |-> 0, claimed |-> 0,                 \* reward coins that reached / left the reward contract
+    folded    |-> 0,                                \* of the delivered coins, those spread over the holders by index updates so far
     updates   |-> 0,                                \* index updates with at least one holder
     ideal     |-> [a \in Accts |-> Zero],           \* exact pro-rata accrual per holder (unfloored per update)
     got       |-> [a \in Accts |-> 0],              \* reward coins claimed per holder
@@ -139,14 +140,18 @@ IsWithdraw(tx) == tx.k = "exec" /\ tx.c = "hub" /\ tx.msg.k = "withdraw_unbonded
 
 GhostNext(g0, w1, tx, ok, w2, fx) ==
   LET rd      == w1.rew.rdenom
-      out     == FxBankFrom(fx, "reward", rd)
+      out     == IF ok /\ tx.k # "probe" THEN FxBankFrom(fx, "reward", rd) ELSE 0     \* a dry run pays nothing
       released == {i \in 1..Min(Len(w2.hist), MaxBatch) : w2.hist[i].released /\ (i > Len(w1.hist) \/ ~w1.hist[i].released)}
       paidNow(i) == IF ok /\ IsWithdraw(tx) /\ tx.sender \in Accts
                     THEN [b |-> w1.wait[tx.sender][i].b - w2.wait[tx.sender][i].b,
                           st |-> w1.wait[tx.sender][i].st - w2.wait[tx.sender][i].st]
                     ELSE NoWait
       updated == w2.rew.gidx # w1.rew.gidx
-      dclaim  == w2.rew.prevBal - w1.rew.prevBal + out          \* coins folded into the index by this step
+      \* coins an index update in this step has to spread: everything that reached the reward contract and was not spread
+      \* before - measured from bank movements, bSei balances and the bSei supply, not from the reward contract's own records
+      dnow    == g0.delivered + (BankBal(w2, "reward", rd) - BankBal(w1, "reward", rd)) + out
+      dclaim  == dnow - g0.folded
+      spreads == updated /\ w1.bsei.supply > 0
   IN [ paid      |-> [i \in 1..MaxBatch |-> [b |-> g0.paid[i].b + paidNow(i).b, st |-> g0.paid[i].st + paidNow(i).st]],
        slashed   |-> IF tx.k = "slash_unb" /\ ok
                      THEN g0.slashed \cup {i \in 1..Len(w1.hist) : ~w1.hist[i].released}
@@ -155,8 +160,9 @@ GhostNext(g0, w1, tx, ok, w2, fx) ==
        delivered |-> g0.delivered + (BankBal(w2, "reward", rd) - BankBal(w1, "reward", rd)) + out,
        claimed   |-> g0.claimed + out,
        updates   |-> IF updated THEN g0.updates + 1 ELSE g0.updates,
-       ideal     |-> IF updated /\ w1.rew.total > 0
-                     THEN [a \in Accts |-> DecAdd(g0.ideal[a], DecFromRatio2(w1.rew.holders[a].bal, dclaim, w1.rew.total))]
+       folded    |-> IF spreads THEN dnow ELSE g0.folded,
+       ideal     |-> IF spreads /\ dclaim >= 0
+                     THEN [a \in Accts |-> DecAdd(g0.ideal[a], DecFromRatio2(w1.bsei.bal[a], dclaim, w1.bsei.supply))]
                      ELSE g0.ideal,
        got       |-> IF ok /\ IsClaim(tx) /\ tx.sender \in Accts THEN [g0.got EXCEPT ![tx.sender] = @ + out] ELSE g0.got,
        maxSupply |-> Max(g0.maxSupply, w2.bsei.supply),
